@@ -111,6 +111,7 @@ type Out struct {
 	Threads []TOut  `json:"threads"`
 	Used    int     `json:"used"`  // driver calls made
 	InUse   int     `json:"inuse"` // connections checked out when every call had ended
+	Tripped bool    `json:"tripped"`
 	Fail    string  `json:"fail,omitempty"`
 }
 
@@ -756,10 +757,8 @@ func runCase(c Case) (out Out) {
 			err := r.conns[0].Transact(func(sqlx.Session) error { return nil })
 			tripped = errors.Is(err, breaker.ErrServiceUnavailable)
 		}
-		if !tripped {
-			out.Fail = "could not trip the breaker"
-			return
-		}
+		// (a breaker that cannot be tripped is no reason to stop: whatever the calls below do is judged)
+		out.Tripped = tripped
 		for _, as := range r.accs {
 			for _, a := range as {
 				a.tids, a.args = nil, nil
